@@ -1,36 +1,18 @@
-"""Per-property configuration for ./check (counts per tier, model files, trusted base, rule)."""
+"""Loads the per-property configuration from lib/props/Cxx.py (CFG = check config, MANIFEST = manifest entry)."""
+import glob, importlib.util, os
 
-COMMON_ASSUME = [
-    "f64 inputs cross the boundary as bit patterns and are decoded to exact rationals; Rust f64 ops are IEEE-754",
-]
+NOTE_COMMON = ("Trusted: Lean 4.33 kernel (axioms propext, Classical.choice, Quot.sound only; audited per theorem each run; no sorry, "
+               "no native_decide, no added axioms); the Lean compiler running the model; the Rust harness, generators and line "
+               "protocol (sampling, not proof). The theorems are about the hand-written model; the model is tied to the code by "
+               "running both on the same inputs each run. ")
 
-PROPS = {
-    "C18": {
-        "count": {"quick": 20000, "thorough": 1000000},
-        "lean_files": ["GeoModel/PolygonSM.lean", "GeoModel/Traverse.lean", "GeoModel/Ops/C18.lean"],
-        "rule": "random API histories (1-13 ops over Polygon::new/exterior_mut/try_exterior_mut/interiors_mut/"
-                "try_interiors_mut/interiors_push with edit-program closures and independent Ok/Err exits), Rect "
-                "new/set_min/set_max histories incl. panicking setters, and From/TryFrom conversions on all 10 types; "
-                "a case is distinct by its input text; every case is non-trivial (at least a constructor plus one op or a conversion)",
-        "trusted_base": [
-            "modelled, not verified: closures are drawn from an 8-instruction edit language (the theorems quantify over all functions)",
-            "a panicking Rect setter ends the modelled history (state after unwinding is not observed)",
-        ],
-        "assumptions": COMMON_ASSUME + ["coordinates are finite (NaN != NaN makes 'closed' unsatisfiable)"],
-    },
-    "C19": {
-        "count": {"quick": 30000, "thorough": 1500000},
-        "lean_files": ["GeoModel/Traverse.lean", "GeoModel/PolygonSM.lean", "GeoModel/Ops/C19.lean"],
-        "rule": "random geometries of all 10 types and nested collections (depth<=3, empty members, 0-2 holes, "
-                "open/empty rings closed by the constructor) x {traversal+bbox+extremes, map/try_map with exact "
-                "integer-affine or constant maps and a value-triggered failure}; distinct by input text; "
-                "cases tagged triv (empty geometry) are not counted",
-        "trusted_base": [
-            "modelled, not verified: coordinate functions are integer-affine or constant maps that are exact in f64 "
-            "(checked per case by the driver; inexact cases are SKIPped and counted)",
-            "Geometry::try_map_coords_in_place cannot be instantiated (infinite type recursion through "
-            "GeometryCollection) and is exercised on the concrete types only",
-        ],
-        "assumptions": COMMON_ASSUME,
-    },
-}
+PROPS = {}
+MANIFESTS = {}
+for f in sorted(glob.glob(os.path.join(os.path.dirname(os.path.abspath(__file__)), "props", "C[0-9][0-9].py"))):
+    pid = os.path.basename(f)[:-3]
+    spec = importlib.util.spec_from_file_location("props_" + pid, f)
+    m = importlib.util.module_from_spec(spec)
+    spec.loader.exec_module(m)
+    PROPS[pid] = m.CFG
+    if getattr(m, "MANIFEST", None):
+        MANIFESTS[pid] = m.MANIFEST
